@@ -4,7 +4,7 @@
    [next] stands for cron.Schedule.Next; what is assumed about it is spelled
    out in every statement (never an axiom). *)
 From Coq Require Import ZArith List.
-From V Require Import C18.Model C18.Lemmas.
+From V Require Import C18.Model C18.Laws C18.Lemmas.
 Import ListNotations.
 Open Scope Z_scope.
 
@@ -59,6 +59,16 @@ Theorem C18_gc_creation_irrelevant : forall lj fresh now1 now2 c1 c2,
 Proof. exact gc_creation_irrelevant. Qed.
 Print Assumptions C18_gc_creation_irrelevant.
 
+(* clause "only the job instance that was checked is deleted": the UID put in
+   the Delete precondition is the freshly read copy's, whatever UID the lister's
+   (possibly recreated-under-the-same-name) copy carries.  What the API server
+   does with the precondition is outside the model. *)
+Theorem C18_gc_uid_is_the_fresh_copys : forall lj fresh now1 now2 u,
+  let relabel (j : gjob) := mkGjob u (g_phase j) (g_ttl j) (g_deleting j) (g_finish j) (g_created j) in
+  process_job (option_map relabel lj) fresh now1 now2 = process_job lj fresh now1 now2.
+Proof. exact gc_uid_is_the_fresh_copys. Qed.
+Print Assumptions C18_gc_uid_is_the_fresh_copys.
+
 Theorem C18_gc_no_finish_time_never_collected : forall lj f now1 now2,
   g_finish f = None ->
   go_delete (process_job lj (Some f) now1 now2) = None.
@@ -80,78 +90,158 @@ Print Assumptions C18_gc_no_finish_time_error_fresh.
 
 (* ---------------- cron: the schedule choice ---------------- *)
 
-(* for every schedule function that yields the least whole-second point after
-   its argument, every creation / last-schedule time, deadline and now: a
-   chosen time is a schedule point, after the earliest time, not after now,
-   and no schedule point lies in (t, now] *)
-Theorem C18_cron_choice_sound : forall next : Z -> Z,
-  (forall t, t < next t) ->
-  (forall t s, sched next s -> t < s -> next t <= s) ->
-  (forall t, exists k, next t = k * sec) ->
+(* [next] stands for cron.Schedule.Next.  Its hypotheses are required only for
+   arguments up to an instant [hi] that bounds the earliest time and now: a
+   finite schedule table and robfig/cron (which gives up after five years and
+   then answers the zero time) satisfy them on such a window, not for all t.
+   [sched next hi s]: s is a schedule point, i.e. an answer of next on the window. *)
+
+(* every creation / last-schedule time, deadline and now below hi: a chosen time
+   is a schedule point, after the earliest time, not after now, and no schedule
+   point lies in (t, now] *)
+Theorem C18_cron_choice_sound : forall (next : Z -> Z) (hi : Z),
+  (forall t, t <= hi -> t < next t) ->
+  (forall t s, t <= hi -> sched next hi s -> t < s -> next t <= s) ->
+  (forall t, t <= hi -> exists k, next t = k * sec) ->
   forall fuel created last deadline now t,
+  earliest_time created last deadline now true <= hi -> now <= hi ->
   next_schedule_time next fuel created last deadline now = NsOk (Some t) ->
   let e := earliest_time created last deadline now true in
-  sched next t /\ e < t /\ t <= now /\ (forall s, sched next s -> t < s -> now < s).
+  sched next hi t /\ e < t /\ t <= now /\ (forall s, sched next hi s -> t < s -> now < s).
 Proof. exact cron_choice_sound. Qed.
 Print Assumptions C18_cron_choice_sound.
 
 (* constant-period schedules: whenever an unmet schedule point exists, one is
    chosen (two loop iterations suffice) *)
-Theorem C18_cron_choice_complete_regular : forall next : Z -> Z,
-  (forall t s, sched next s -> t < s -> next t <= s) ->
-  forall p, 0 < p -> (forall s, sched next s -> next s = s + p * sec) ->
+Theorem C18_cron_choice_complete_regular : forall (next : Z -> Z) (hi : Z),
+  (forall t s, t <= hi -> sched next hi s -> t < s -> next t <= s) ->
+  forall p, 0 < p -> (forall s, s <= hi -> sched next hi s -> next s = s + p * sec) ->
   forall fuel created last deadline now, (2 <= fuel)%nat ->
   let e := earliest_time created last deadline now true in
-  (exists s, sched next s /\ e < s /\ s <= now) ->
+  e <= hi -> now <= hi ->
+  (exists s, sched next hi s /\ e < s /\ s <= now) ->
   exists t, next_schedule_time next fuel created last deadline now = NsOk (Some t).
 Proof. exact cron_choice_complete_regular. Qed.
 Print Assumptions C18_cron_choice_complete_regular.
 
 (* irregular schedules: completeness does NOT hold (upstream behaviour; a
-   missed start, not an early or duplicate one) *)
+   missed start, not an early or duplicate one) - even with the hypotheses for all t *)
 Theorem C18_cron_complete_refuted :
-  exists next, (forall t, t < next t) /\ (forall t s, sched next s -> t < s -> next t <= s) /\
+  exists next, (forall t, t < next t) /\ (forall hi t s, sched next hi s -> t < s -> next t <= s) /\
                (forall t, exists k, next t = k * sec) /\
   exists fuel created last deadline now,
-    (exists s, sched next s /\ earliest_time created last deadline now true < s /\ s <= now) /\
+    (exists s, sched next now s /\ earliest_time created last deadline now true < s /\ s <= now) /\
     next_schedule_time next fuel created last deadline now = NsOk None.
 Proof. exact cron_complete_refuted. Qed.
 Print Assumptions C18_cron_complete_refuted.
 
+(* the loop fuel that suffices in general: one step per second of the window *)
+Theorem C18_cron_fuel_enough : forall (next : Z -> Z) (hi : Z),
+  (forall t, t <= hi -> t < next t) ->
+  (forall t, t <= hi -> exists k, next t = k * sec) ->
+  forall fuel created last deadline now incl,
+  earliest_time created last deadline now incl <= hi -> now <= hi ->
+  (Z.to_nat ((now - earliest_time created last deadline now incl) / sec + 1) <= fuel)%nat ->
+  snd (most_recent next fuel created last deadline now incl) <> MrFuel.
+Proof. exact most_recent_fuel_enough. Qed.
+Print Assumptions C18_cron_fuel_enough.
+
+(* the schedule the correspondence runs with - a table of whole-second points,
+   strictly increasing, reaching beyond hi - meets all three hypotheses on the window *)
+Theorem C18_cron_table_meets_hypotheses : forall tbl hi, tbl_ok tbl -> (exists p, In p tbl /\ hi < p) ->
+  (forall t, t <= hi -> t < next_tbl tbl t) /\
+  (forall t s, t <= hi -> sched (next_tbl tbl) hi s -> t < s -> next_tbl tbl t <= s) /\
+  (forall t, t <= hi -> exists k, next_tbl tbl t = k * sec).
+Proof. exact next_tbl_window. Qed.
+Print Assumptions C18_cron_table_meets_hypotheses.
+
 (* ---------------- cron: the controller over histories ---------------- *)
 
-(* every history of reconciles at arbitrary instants (a fortiori at
-   non-decreasing ones), interleaved with job completions, deletions, foreign
-   creations, suspend and policy changes: the schedule times for which a Create
-   succeeded are strictly increasing from the initial lastScheduleTime, hence
-   each schedule point starts at most one job *)
-Theorem C18_cron_created_increasing : forall (next : Z -> Z) (lenient : bool),
-  (forall t, t < next t) -> (forall t, exists k, next t = k * sec) ->
+(* every history of reconciles at arbitrary instants <= hi (a fortiori at
+   non-decreasing ones) that each read the status the previous one wrote,
+   interleaved with job completions, deletions, foreign creations, suspend,
+   policy, deadline and history-limit edits: the schedule times for which a
+   Create succeeded are strictly increasing from the initial lastScheduleTime,
+   hence each schedule point starts at most one job *)
+Theorem C18_cron_created_increasing : forall (next : Z -> Z) (lenient : bool) (hi : Z),
+  (forall t, t <= hi -> t < next t) -> (forall t, t <= hi -> exists k, next t = k * sec) ->
   forall fuel ops s s' outs,
-  run next lenient fuel s ops = (s', outs) -> state_ok s ->
+  run next lenient fuel s ops = (s', outs) -> state_ok s -> bounded hi s -> Forall (op_ok hi) ops ->
   Forall (fun o => o_err o <> E_FUEL) outs ->
   increasing_from (st_last (s_status s)) (created_times outs).
 Proof. exact run_created_increasing. Qed.
 Print Assumptions C18_cron_created_increasing.
 
-Theorem C18_cron_at_most_once : forall (next : Z -> Z) (lenient : bool),
-  (forall t, t < next t) -> (forall t, exists k, next t = k * sec) ->
+Theorem C18_cron_at_most_once : forall (next : Z -> Z) (lenient : bool) (hi : Z),
+  (forall t, t <= hi -> t < next t) -> (forall t, t <= hi -> exists k, next t = k * sec) ->
   forall fuel ops s s' outs,
-  run next lenient fuel s ops = (s', outs) -> state_ok s ->
+  run next lenient fuel s ops = (s', outs) -> state_ok s -> bounded hi s -> Forall (op_ok hi) ops ->
   Forall (fun o => o_err o <> E_FUEL) outs ->
   NoDup (created_times outs).
 Proof. exact cron_at_most_once. Qed.
 Print Assumptions C18_cron_at_most_once.
 
-(* one reconcile: what is started is after the previous run and after the
-   earliest time, not after now, recorded as lastScheduleTime; never while
-   suspended; under Forbid the new job is the only active one afterwards;
-   history deletes hit finished runs of this CronJob only *)
-Theorem C18_cron_reconcile : forall (next : Z -> Z) (lenient : bool),
-  (forall t, t < next t) -> (forall t, exists k, next t = k * sec) ->
+(* the same for exactly what the correspondence executes: a schedule table
+   reaching beyond hi and the entry point's fuel - no hypothesis about next or
+   about fuel is left *)
+Theorem C18_cron_at_most_once_table : forall tbl lenient hi ops s s' outs,
+  tbl_ok tbl -> (exists p, In p tbl /\ hi < p) ->
+  run (next_tbl tbl) lenient (S (S (S (length tbl)))) s ops = (s', outs) ->
+  state_ok s -> bounded hi s -> Forall (op_ok hi) ops ->
+  NoDup (created_times outs).
+Proof. exact cron_at_most_once_tbl. Qed.
+Print Assumptions C18_cron_at_most_once_table.
+
+(* and for "@every d" (d whole seconds), whose Next has no fixed points *)
+Theorem C18_cron_at_most_once_every : forall k lenient fuel ops s s' outs hi,
+  1 <= k ->
+  run (next_every (k * sec)) lenient fuel s ops = (s', outs) -> state_ok s -> bounded hi s -> Forall (op_ok hi) ops ->
+  Forall (fun o => o_err o <> E_FUEL) outs ->
+  NoDup (created_times outs).
+Proof. exact cron_at_most_once_every. Qed.
+Print Assumptions C18_cron_at_most_once_every.
+
+(* STALE READS AND LOST STATUS WRITES (sync reads the informer cache and
+   swallows a failed UpdateStatus): over every history in which reconciles may
+   start from an arbitrary status and their write-back may be lost, the server
+   never holds two jobs of one name (= of one schedule minute) ... *)
+Theorem C18_cron_stale_one_job_per_name : forall next lenient fuel ops s s' outs,
+  run2 next lenient fuel s ops = (s', outs) -> names_unique (s_jobs s) -> names_unique (s_jobs s').
+Proof. exact cron_stale_one_job_per_name. Qed.
+Print Assumptions C18_cron_stale_one_job_per_name.
+
+(* ... because a Create succeeds only when no job of that name is on the server
+   at that moment, whatever status the reconcile started from ... *)
+Theorem C18_cron_create_needs_free_name :
+  forall next lenient fuel spec now hd fc t st1 jobs1 uid upd1 rd st' jobs' uid' o nm t',
+  create_job next lenient fuel spec now hd fc t st1 jobs1 uid upd1 rd = (st', jobs', uid', o) ->
+  In (nm, t') (o_creates o) ->
+  nm = job_name_of t /\ t' = t /\ find_job jobs1 nm = None /\
+  jobs' = insert_job (mkJob nm uid OwnThis PhOther (Some now) None) jobs1.
+Proof. exact cron_create_needs_free_name. Qed.
+Print Assumptions C18_cron_create_needs_free_name.
+
+(* ... but "each schedule time starts at most one job" is FALSE there: after a
+   lost status write the job of T can finish, be removed by the history limit,
+   and T is started again (reproduced on the real code: known finding) *)
+Theorem C18_cron_at_most_once_lost_write_refuted :
+  exists (s : cstate) (ops : list op2),
+    state_ok s /\ names_unique (s_jobs s) /\
+    let '(_, outs) := run2 next_pairs false 10 s ops in
+    created_times outs = [100 * sec; 100 * sec] /\ Forall (fun o => o_err o <> E_FUEL) outs.
+Proof. exact cron_at_most_once_lost_write_refuted. Qed.
+Print Assumptions C18_cron_at_most_once_lost_write_refuted.
+
+(* one reconcile that reads the written status: what is started is after the
+   previous run and after the earliest time, not after now, recorded as
+   lastScheduleTime; never while suspended; under Forbid the new job is the
+   only active one afterwards; history deletes hit finished runs of this CronJob only *)
+Theorem C18_cron_reconcile : forall (next : Z -> Z) (lenient : bool) (hi : Z),
+  (forall t, t <= hi -> t < next t) -> (forall t, t <= hi -> exists k, next t = k * sec) ->
   forall fuel s now fc s' o,
   reconcile next lenient fuel s now fc = (s', o) -> state_ok s -> o_err o <> E_FUEL ->
-  state_ok s' /\ s_spec s' = s_spec s /\
+  bounded hi s -> now <= hi ->
+  state_ok s' /\ bounded hi s' /\ s_spec s' = s_spec s /\
   last_le (st_last (s_status s)) (st_last (s_status s')) /\
   Forall (is_hist_victim (s_jobs s)) (o_hist_deletes o) /\
   (o_creates o = [] \/
@@ -169,12 +259,69 @@ Theorem C18_cron_respects_suspend : forall (next : Z -> Z) (lenient : bool) fuel
 Proof. exact cron_respects_suspend. Qed.
 Print Assumptions C18_cron_respects_suspend.
 
+(* Forbid, as the code sees it: no start while status.active (after the clean-up) is not empty *)
 Theorem C18_cron_forbid : forall (next : Z -> Z) (lenient : bool)
     fuel spec st jobs uid now fc upd0 hd st' jobs' uid' o,
   decide next lenient fuel spec st jobs uid now fc upd0 hd = (st', jobs', uid', o) ->
   c_policy spec = Forbid -> st_active st <> [] -> o_creates o = [].
 Proof. exact cron_forbid. Qed.
 Print Assumptions C18_cron_forbid.
+
+(* Forbid against a live run: whatever status the reconcile starts from (fresh
+   or stale), a reference to an unfinished job of this CronJob that is on the
+   server blocks the start (the clean-up cannot drop it) *)
+Theorem C18_cron_forbid_live : forall next lenient fuel s st_in ok now fc s' o r j,
+  reconcile_from next lenient fuel s st_in ok now fc = (s', o) ->
+  c_policy (s_spec s) = Forbid -> uids_unique (s_jobs s) ->
+  In r (st_active st_in) -> In j (s_jobs s) -> j_owner j = OwnThis -> finished (j_phase j) = false ->
+  j_uid j = r_uid r ->
+  o_creates o = [].
+Proof. exact cron_forbid_live. Qed.
+Print Assumptions C18_cron_forbid_live.
+
+(* Forbid over histories, live-run form: in every history of fresh reconciles
+   and environment events other than planting an unfinished job of this CronJob
+   behind the controller's back or reviving a finished one, no orphan ever
+   exists (inv_live), hence a reconcile under Forbid starts a job only when NO
+   unfinished job of this CronJob is on the server *)
+Theorem C18_cron_forbid_no_live_run : forall next lenient fuel pre s0 s1 outs1 now fc s2 o,
+  inv_live s0 -> Forall op_no_orphan pre ->
+  run next lenient fuel s0 pre = (s1, outs1) -> Forall (fun o => o_err o <> E_FUEL) outs1 ->
+  reconcile next lenient fuel s1 now fc = (s2, o) -> o_err o <> E_FUEL ->
+  c_policy (s_spec s1) = Forbid -> o_creates o <> [] ->
+  forall j, In j (s_jobs s1) -> ~ live j.
+Proof. exact cron_forbid_no_live_run. Qed.
+Print Assumptions C18_cron_forbid_no_live_run.
+
+(* adoption by name: createJob hits AlreadyExists on an unfinished job of this
+   CronJob that the job client can fetch: nothing is created and the job is
+   referenced in status.active afterwards (so C18_cron_forbid_live applies at
+   the next schedule point); unless it was referenced already, lastScheduleTime
+   is set and the update requested.  Foreign or finished conflicting jobs are
+   report-only. *)
+Theorem C18_cron_adoption : forall next fuel spec now hd t st1 jobs1 uid upd1 rd st' jobs' uid' o ex,
+  create_job next true fuel spec now hd false t st1 jobs1 uid upd1 rd = (st', jobs', uid', o) ->
+  find_job jobs1 (job_name_of t) = Some ex -> j_owner ex = OwnThis -> finished (j_phase ex) = false ->
+  o_creates o = [] /\ jobs' = jobs1 /\
+  In (mkRef (job_name_of t) (j_uid ex)) (st_active st') \/
+  (o_creates o = [] /\ jobs' = jobs1 /\ in_active (st_active st1) (j_uid ex) = true /\ st_active st' = st_active st1).
+Proof. exact cron_adoption. Qed.
+Print Assumptions C18_cron_adoption.
+
+Theorem C18_cron_adoption_records : forall next fuel spec now hd t st1 jobs1 uid upd1 rd st' jobs' uid' o ex,
+  create_job next true fuel spec now hd false t st1 jobs1 uid upd1 rd = (st', jobs', uid', o) ->
+  find_job jobs1 (job_name_of t) = Some ex -> j_owner ex = OwnThis -> finished (j_phase ex) = false ->
+  in_active (st_active st1) (j_uid ex) = false ->
+  st_last st' = Some t /\ o_upd o = true /\ (o_err o = E_OK \/ o_err o = E_FUEL) /\ o_status o = st'.
+Proof. exact cron_adoption_records. Qed.
+Print Assumptions C18_cron_adoption_records.
+
+Theorem C18_cron_conflict_foreign : forall next lenient fuel spec now hd t st1 jobs1 uid upd1 rd st' jobs' uid' o ex,
+  create_job next lenient fuel spec now hd false t st1 jobs1 uid upd1 rd = (st', jobs', uid', o) ->
+  find_job jobs1 (job_name_of t) = Some ex -> (j_owner ex <> OwnThis \/ finished (j_phase ex) = true) ->
+  o_creates o = [] /\ st' = st1 /\ jobs' = jobs1.
+Proof. exact cron_conflict_foreign. Qed.
+Print Assumptions C18_cron_conflict_foreign.
 
 Theorem C18_history_deletes_finished_only : forall next lenient fuel s now fc s' o,
   reconcile next lenient fuel s now fc = (s', o) ->
@@ -184,36 +331,66 @@ Print Assumptions C18_history_deletes_finished_only.
 
 (* ---------------- cron: the zone the schedule is evaluated in ---------------- *)
 
-(* formatSchedule / validateTZandSchedule: whenever spec.timeZone is set and
-   loads and the schedule string embeds no zone of its own, the string handed
-   to the cron parser is "TZ=<zone> <schedule>" and the schedule is evaluated
-   in that zone, for EVERY schedule kind (five fields, @every, descriptors) *)
-Theorem C18_cron_zone_is_spec : forall (k : skind) (z : Z),
-  validate_tz (TzLoads z) = true /\
-  format_schedule (TzLoads z) (mkSstr k None) = FmtPrefixed z /\
-  zone_used (TzLoads z) (mkSstr k None) = ZNamed z.
-Proof. exact cron_zone_is_spec. Qed.
-Print Assumptions C18_cron_zone_is_spec.
-
-Theorem C18_cron_zone_cases : forall tz s,
-  zone_used tz s =
-  match ss_embedded s with
-  | Some e => ZNamed e
-  | None => match tz with TzLoads z => ZNamed z | _ => ZLocal end
-  end.
-Proof. exact cron_zone_cases. Qed.
-Print Assumptions C18_cron_zone_cases.
-
-Theorem C18_cron_zone_kind_irrelevant : forall tz k1 k2 e,
-  format_schedule tz (mkSstr k1 e) = format_schedule tz (mkSstr k2 e) /\
-  zone_used tz (mkSstr k1 e) = zone_used tz (mkSstr k2 e).
-Proof. exact cron_zone_kind_irrelevant. Qed.
-Print Assumptions C18_cron_zone_kind_irrelevant.
+(* formatSchedule / validateTZandSchedule against a specification written
+   without them (zone_spec: embedded zone, else spec.timeZone if it loads, else
+   the controller's zone), for every schedule kind.  The model sees a schedule
+   string only as (grammar kind, embedded zone); that the real strings are
+   evaluated in that zone is what harness laws 110-112 check against the
+   harness's own evaluation. *)
+Theorem C18_cron_zone_meets_spec : forall tz s z, zone_used tz s = z <-> zone_spec tz s z.
+Proof. exact cron_zone_meets_spec. Qed.
+Print Assumptions C18_cron_zone_meets_spec.
 
 Theorem C18_cron_invalid_zone_no_start : forall next lenient fuel s now fc s' o,
   reconcile next lenient fuel s now fc = (s', o) -> c_tz_ok (s_spec s) = false -> o_creates o = [].
 Proof. exact cron_invalid_zone_no_start. Qed.
 Print Assumptions C18_cron_invalid_zone_no_start.
+
+(* ---------------- what the executable laws mean ---------------- *)
+
+Theorem C18_law_choice_sound : forall tbl created last deadline now t,
+  Laws.law_choice tbl created last deadline now (Some t) = true ->
+  In t tbl /\ earliest_time created last deadline now true < t /\ t <= now /\
+  forall p, In p tbl -> t < p -> now < p.
+Proof. exact law_choice_sound. Qed.
+Print Assumptions C18_law_choice_sound.
+
+Theorem C18_law_table_sound : forall tbl qs, Laws.law_table tbl qs = true -> tbl <> [] ->
+  tbl_ok tbl /\ forall a r, In (a, r) qs -> a < r /\ r = next_tbl tbl a.
+Proof. exact law_table_sound. Qed.
+Print Assumptions C18_law_table_sound.
+
+Theorem C18_law_reconcile_sound : forall tbl o, Laws.law_reconcile tbl o = true ->
+  (c_suspend (Laws.b_spec o) = true -> Laws.b_creates o = []) /\
+  (c_tz_ok (Laws.b_spec o) = false -> Laws.b_creates o = []) /\
+  (length (Laws.b_creates o) <= 1)%nat /\
+  (forall nm t, In (nm, t) (Laws.b_creates o) ->
+     In t tbl /\
+     earliest_time (c_created (Laws.b_spec o)) (Laws.b_last o) (c_deadline (Laws.b_spec o)) (Laws.b_now o) true < t /\
+     t <= Laws.b_now o /\ (forall p, In p tbl -> t < p -> Laws.b_now o < p) /\
+     nm = job_name_of t /\ last_lt (Laws.b_last o) t) /\
+  (c_policy (Laws.b_spec o) = Forbid -> Laws.b_creates o <> [] ->
+   forall r j, In r (Laws.b_active o) -> find_job (Laws.b_jobs o) (r_name r) = Some j -> j_uid j = r_uid r ->
+               finished (j_phase j) = true) /\
+  Laws.law_adoption o = true.
+Proof. exact law_reconcile_sound. Qed.
+Print Assumptions C18_law_reconcile_sound.
+
+Theorem C18_law_adoption_sound : forall o nm t j, Laws.law_adoption o = true ->
+  In (nm, t) (Laws.b_conflicts o) -> find_job (Laws.b_jobs o) nm = Some j ->
+  Laws.mem nm (map fst (Laws.b_deletes o)) = false ->
+  j_owner j = OwnThis -> finished (j_phase j) = false -> Laws.b_lenient o = true ->
+  Laws.b_creates o = [] /\ Laws.b_err o = 0 /\
+  (exists r, In r (Laws.b_active_after o) /\ r_name r = nm /\ r_uid r = j_uid j) /\
+  ((exists r, In r (Laws.b_active o) /\ r_uid r = j_uid j) \/ (Laws.b_last_after o = Some t /\ Laws.b_upd o = true)).
+Proof. exact law_adoption_sound. Qed.
+Print Assumptions C18_law_adoption_sound.
+
+Theorem C18_law_gc_delete_sound : forall lj fresh lo hi uid rqs,
+  Laws.law_gc lj fresh lo hi (Some uid) rqs = true ->
+  exists f, fresh = Some f /\ gc_due f hi /\ uid = g_uid f.
+Proof. exact law_gc_delete. Qed.
+Print Assumptions C18_law_gc_delete_sound.
 
 (* ---------------- non-vacuity ---------------- *)
 Example C18_gc_nonvacuous :
@@ -226,7 +403,7 @@ Proof. exact gc_nonvacuous. Qed.
 (* the hypotheses on [next] are satisfiable (by an irregular schedule), and a
    well-formed state runs through two starts under Forbid with history limits *)
 Example C18_next_hypotheses_satisfiable :
-  (forall t, t < next_pairs t) /\ (forall t s, sched next_pairs s -> t < s -> next_pairs t <= s) /\
+  (forall t, t < next_pairs t) /\ (forall hi t s, sched next_pairs hi s -> t < s -> next_pairs t <= s) /\
   (forall t, exists k, next_pairs t = k * sec).
 Proof. exact (conj next_pairs_gt (conj next_pairs_least next_pairs_sec)). Qed.
 
